@@ -331,3 +331,51 @@ Definition in_range (window : Z) (evs : list (Z * Z)) : bool :=
   (0 <? window) && (window <? 2 ^ 62) &&
   forallb (fun e => (0 <=? fst e) && (fst e <? 2 ^ 62) && (0 <=? snd e) && (snd e <? 2 ^ 40)) evs &&
   sorted_from 0 evs.
+
+(* ====================================================================== *)
+(* (b') Quota.Blocked under concurrency: one atomic step per caller         *)
+(* ====================================================================== *)
+(* Shared state: the clock and the cache group -> bucket (groups are abstract keys).  A caller (g, dt)
+   runs when the clock has advanced by dt >= 0 since the previous step, so timestamps are non-decreasing
+   in schedule order for every schedule.  Today's Blocked does lookup-or-create and (for this model)
+   Allow as ONE atomic step under q.mu.  Events: (group, time, granted). *)
+Record qstate := mkQ { qclock : Z; qcache : list (N * bucket) }.
+Definition qevent := (N * Z * bool)%type.
+
+Fixpoint qlookup (g : N) (c : list (N * bucket)) : option bucket :=
+  match c with [] => None | (k, b) :: r => if (k =? g)%N then Some b else qlookup g r end.
+Fixpoint qset (g : N) (b : bucket) (c : list (N * bucket)) : list (N * bucket) :=
+  match c with
+  | [] => [(g, b)]
+  | (k, b0) :: r => if (k =? g)%N then (k, b) :: r else (k, b0) :: qset g b r
+  end.
+
+Definition blocked_step (burst rnum rden : Z) (g : N) (dt : Z) (s : qstate) : qstate * list qevent :=
+  let t := qclock s + Z.max 0 dt in
+  let b := match qlookup g (qcache s) with Some b => b | None => bucket_new burst rden t end in
+  let '(b', ok) := bucket_allow burst rnum rden b t in
+  (mkQ t (qset g b' (qcache s)), [(g, t, ok)]).
+
+(* what one group saw: its (time, granted) points in trace order *)
+Fixpoint gtrace (g : N) (evs : list qevent) : list (Z * bool) :=
+  match evs with
+  | [] => []
+  | (k, t, ok) :: r => if (k =? g)%N then (t, ok) :: gtrace g r else gtrace g r
+  end.
+
+(* the seeded split (lookup under the lock; create + add + Allow later on a PRIVATE bucket):
+   thread-local result of the lookup is kept per caller id *)
+Record q2state := mkQ2 { q2clock : Z; q2cache : list (N * bucket); q2local : list (N * option bucket) }.
+Fixpoint l2lookup (i : N) (c : list (N * option bucket)) : option (option bucket) :=
+  match c with [] => None | (k, b) :: r => if (k =? i)%N then Some b else l2lookup i r end.
+
+Definition split_lookup (i g : N) (s : q2state) : q2state * list qevent :=
+  (mkQ2 (q2clock s) (q2cache s) ((i, qlookup g (q2cache s)) :: q2local s), []).
+Definition split_allow (burst rnum rden : Z) (i g : N) (s : q2state) : q2state * list qevent :=
+  let t := q2clock s in
+  let b := match l2lookup i (q2local s) with
+           | Some (Some b) => b                       (* cache hit *)
+           | _ => bucket_new burst rden t             (* miss: a fresh private bucket *)
+           end in
+  let '(b', ok) := bucket_allow burst rnum rden b t in
+  (mkQ2 t (qset g b' (q2cache s)) (q2local s), [(g, t, ok)]).
